@@ -119,8 +119,8 @@ func (e *vrEnv) finish() {
 func vrOneLine(s string) string {
 	s = strings.ReplaceAll(s, "\n", "\\n")
 	s = strings.ReplaceAll(s, " ", "_")
-	if len(s) > 8000 {
-		s = s[:8000] + "..."
+	if len(s) > 6000 {
+		s = s[:6000] + "...(truncated)"
 	}
 	if s == "" {
 		s = "-"
